@@ -14,6 +14,7 @@ pub mod c09;
 pub mod c10;
 pub mod c11;
 pub mod c12;
+pub mod c13;
 pub mod c14;
 pub mod elfgen;
 pub mod c16;
@@ -39,6 +40,7 @@ pub fn dispatch(id: &str, ctx: &Ctx) -> Option<i32> {
         "C10" => c10::run(ctx),
         "C11" => c11::run(ctx),
         "C12" => c12::run(ctx),
+        "C13" => c13::run(ctx),
         "C14" => c14::run(ctx),
         "C16" => c16::run(ctx),
         "C17" => c17::run(ctx),
